@@ -8,11 +8,28 @@ _dirs = {}
 _counter = [0]
 
 
+def _base():
+    """scratch lives on a RAM file system when there is one with room (directory-heavy checks such as C19 are several times
+    faster there); VERIF_TMP overrides; otherwise the platform default"""
+    b = os.environ.get("VERIF_TMP")
+    if b:
+        return b
+    shm = "/dev/shm"
+    try:
+        if os.path.isdir(shm) and os.access(shm, os.W_OK | os.X_OK):
+            st = os.statvfs(shm)
+            if st.f_bavail * st.f_frsize > 2 * 1024**3:
+                return shm
+    except OSError:
+        pass
+    return None
+
+
 def tmpdir():
     pid = os.getpid()
     d = _dirs.get(pid)
     if d is None:
-        d = tempfile.mkdtemp(prefix="batchie_verif_%d_" % pid)
+        d = tempfile.mkdtemp(prefix="batchie_verif_%d_" % pid, dir=_base())
         _dirs[pid] = d
         atexit.register(shutil.rmtree, d, True)
         try:
